@@ -30,6 +30,14 @@ def ctx():
     ref = Conf()
     conc = universe.one_per_type(ref, rep=1)
     leaf_types = [t for t in ref.types if ref.is_leaf_type(t)]
+    # the basetype the entities are taken from: the first one, or the one the driver asks for (C18 runs its single-call
+    # family on a second basetype, whose leaf strings also fit a type without path template in the demo configuration)
+    bases = []
+    for t in leaf_types:
+        if ref.basetype(t) not in bases:
+            bases.append(ref.basetype(t))
+    base = bases[int(os.environ.get("VERIF_C15_BASE", "0") or 0) % len(bases)]
+    leaf_types = [t for t in leaf_types if ref.basetype(t) == base] + [t for t in leaf_types if ref.basetype(t) != base]
     lt = leaf_types[0]
     F1 = conc[lt].split("/")
     keys = ref.keys(lt)
@@ -48,7 +56,14 @@ def ctx():
     ti = vi - 1
     names = [i for i, (k, p) in enumerate(ref.templates[lt]) if p is None]
     D1 = list(F1[: ti + 1])
-    D1[names[0]] = "other"
+    if names and names[0] <= ti:
+        D1[names[0]] = "other"
+    else:       # a chain without free-text key: another accepted value at the first level that has one
+        for i in range(2, ti + 1):
+            alt = [x for x in ref.accepted(lt, i, ref.literals() + ref.digit_instances()) if x != F1[i] and x not in ("*", ">")]
+            if alt:
+                D1[i] = alt[0]
+                break
     NP = F1[:-1]
     E = {"F1": "/".join(F1), "F2": "/".join(F2), "F3": "/".join(F3), "M1": "/".join(M1), "V1": "/".join(V1), "D1": "/".join(D1),
          "NP": "/".join(NP), "U": "bla/bla"}
@@ -65,6 +80,15 @@ def ctx():
         if alt and ref.templates[lt][i][1] is not None:
             E["L1"] = "/".join(F1[:i] + [alt[0]] + F1[i + 1:])
             break
+    # two files of one folder whose names hold a dot inside (a dotted free-text value) and differ after it
+    if "L1" in E and names:
+        x1 = list(F1)
+        x1[names[0]] = "x.y"
+        li = [i for i in range(len(F1)) if E["L1"].split("/")[i] != F1[i]][0]
+        x2 = list(x1)
+        x2[li] = E["L1"].split("/")[li]
+        if ref.natural("/".join(x1))[0] == lt and ref.natural("/".join(x2))[0] == lt:
+            E["X1"], E["X2"] = "/".join(x1), "/".join(x2)
     prs = {n: PathsRef(n) for n in PathsRef().configs}
     return dict(ref=ref, prs=prs, names=list(prs), E=E)
 
@@ -83,6 +107,10 @@ def ops(values=(1, 2)):
     out.append(["create", "K1", {"a": 1}])
     out.append(["set", "F1", {"sid": "hamlet/other"}])
     out.append(["update", "V1", {"sid": "x", "a": 5}])
+    # dotted names: two files of one folder that differ after the dot
+    for e in ("X1", "X2"):
+        out.append(["create", e, None])
+        out.append(["set", e, {"a": 1 if e == "X1" else 2}])
     # values that are false in a boolean test are values too (frame 0, an empty comment, a flag switched off)
     out.append(["set", "F1", {"a": 0}])
     out.append(["set", "F1", {"b": ""}])
@@ -349,7 +377,9 @@ def run_shard(sh):
     root = C["prs"][c0].root()
     rec = Recorder(0, 1, sh["seed"])
     thorough = sh["tier"] == "thorough"
-    OPS = ops()
+    OPS = [op for op in ops() if op[1] in C["E"]]
+    if sh["first"] and sh["first"][1] not in C["E"] if sh.get("first") else False:
+        return rec.result()
     if sh["mode"] == "bfs":
         depth = 5 if thorough else 3
         env.clear_tree()
